@@ -36,7 +36,7 @@ def cfg_fn(rng):
     return gen.random_config(rng, p3d=0.2)
 
 
-WEIGHTS = {"undo": 1.5, "redo": 1.0, "update_attrs": 1.5}
+WEIGHTS = {"scenario": 0.5, "undo": 1.5, "redo": 1.0, "update_attrs": 1.5}
 
 
 def plan(tier, seed):
